@@ -292,9 +292,85 @@ def orient_comparisons(tree):
     return tree
 
 
+def split_parallel_assign(tree):
+    """``a, b = x, y`` -> ``a = x; b = y`` when that is the same thing: no element of the right-hand
+    side that is evaluated later mentions a location assigned earlier (so a swap stays as it is)"""
+    def texts(e):
+        return {ast.unparse(x) for x in ast.walk(e) if isinstance(x, (ast.Name, ast.Attribute, ast.Subscript))}
+
+    def visit(body):
+        i = 0
+        while i < len(body):
+            st = body[i]
+            for fld in ('body', 'orelse', 'finalbody'):
+                sub = getattr(st, fld, None)
+                if isinstance(sub, list) and sub and isinstance(sub[0], ast.stmt):
+                    visit(sub)
+            for h in getattr(st, 'handlers', []) or []:
+                visit(h.body)
+            if isinstance(st, ast.Assign) and len(st.targets) == 1 and \
+                    isinstance(st.targets[0], (ast.Tuple, ast.List)) and \
+                    isinstance(st.value, (ast.Tuple, ast.List)) and \
+                    len(st.targets[0].elts) == len(st.value.elts) and \
+                    not any(isinstance(e, ast.Starred) for e in st.targets[0].elts + st.value.elts):
+                ts, vs = st.targets[0].elts, st.value.elts
+                safe = all(ast.unparse(ts[a]) not in texts(vs[b]) and
+                           not any(ast.unparse(ts[a]).startswith(x + '.') or x.startswith(ast.unparse(ts[a]) + '.')
+                                   for x in texts(vs[b]))
+                           for a in range(len(ts)) for b in range(a + 1, len(ts)))
+                if safe:
+                    new = [ast.copy_location(ast.Assign(targets=[t], value=v), st) for t, v in zip(ts, vs)]
+                    body[i:i + 1] = new
+                    i += len(new)
+                    continue
+            i += 1
+    visit(tree.body)
+    return tree
+
+
+_ITER_WRAPPERS = ('enumerate', 'zip', 'reversed', 'iter', 'sorted', 'list', 'tuple', 'range')
+
+
+def inline_loop_iterables(tree):
+    """``it = enumerate(xs, k)`` directly followed by ``for ... in it:`` (the only read of *it*):
+    the iterable is written into the for statement"""
+    for fn in [n for n in ast.walk(tree) if isinstance(n, (ast.FunctionDef, ast.AsyncFunctionDef))]:
+        reads, writes = {}, {}
+        for n in ast.walk(fn):
+            if isinstance(n, ast.Name):
+                d = reads if isinstance(n.ctx, ast.Load) else writes
+                d[n.id] = d.get(n.id, 0) + 1
+
+        def visit(body):
+            i = 0
+            while i + 1 < len(body):
+                a, b = body[i], body[i + 1]
+                if isinstance(a, ast.Assign) and len(a.targets) == 1 and isinstance(a.targets[0], ast.Name) \
+                        and isinstance(a.value, ast.Call) and isinstance(a.value.func, ast.Name) and \
+                        a.value.func.id in _ITER_WRAPPERS and isinstance(b, ast.For) and \
+                        isinstance(b.iter, ast.Name) and b.iter.id == a.targets[0].id and \
+                        reads.get(b.iter.id) == 1 and writes.get(b.iter.id) == 1:
+                    b.iter = a.value
+                    del body[i]
+                    continue
+                i += 1
+            for st in body:
+                for fld in ('body', 'orelse', 'finalbody'):
+                    sub = getattr(st, fld, None)
+                    if isinstance(sub, list) and sub and isinstance(sub[0], ast.stmt) and \
+                            not isinstance(st, (ast.FunctionDef, ast.AsyncFunctionDef, ast.ClassDef)):
+                        visit(sub)
+                for h in getattr(st, 'handlers', []) or []:
+                    visit(h.body)
+        visit(fn.body)
+    return tree
+
+
 def canonicalise(tree, modname, log=None):
     """rename, in place, the locals that play the roles of TABLE to their canonical names"""
     orient_comparisons(tree)
+    split_parallel_assign(tree)
+    inline_loop_iterables(tree)
     for qual, roles in TABLE.items():
         mod, _, rest = qual.partition('.')
         if mod != modname:
